@@ -244,6 +244,12 @@ def step (d : DState) (tok : List String) : DState × List String :=
            "nv cat=moveonly got=1 moves_le1=1",
            "ret cat=value got=1 copies=0 moves=0",
            "ret cat=ref same=1"])
+  | "thunk-expect-fork" :: _ =>
+    -- a definition on an intermediate class with a virtual base, reached by objects of several most
+    -- derived classes in turn: each call must hand the definition the caller's own object
+    let kinds := ["ref", "ref@1", "cref", "rref", "ptr", "vptr", "vptr@1"]
+    let objs := ["L1", "L2", "D", "L3", "L2", "L1"]
+    (d, kinds.flatMap (fun k => objs.map (fun o => s!"fork kind={k} obj={o} same=1 value=1 extra=1")))
   | "use-defs" :: nl :: nr :: holes =>
     -- use_definitions over product<types<M>, L0..L(nl-1), R0..R(nr-1)> with holes i:j
     let nl := nl.toNat?.getD 0
@@ -266,6 +272,13 @@ def step (d : DState) (tok : List String) : DState × List String :=
     let calls := (List.range nl).flatMap (fun i => (List.range nr).map (fun j =>
       if regs.contains [0, i, j] then s!" {1000 * i + j}" else " E"))
     (d, ["product" ++ String.join (prod.map pr), "registered" ++ String.join (sorted.map pr), "calls" ++ String.join calls])
+  | "aggregate" :: n :: _ =>
+    -- aggregate<Tag<0>, ..., Tag<n-1>>: every element constructed exactly once
+    let n := n.toNat?.getD 0
+    let leaves := (aggregate Generated.aggregateThreshold (n + 1) (List.range n)).flatten
+    let missing := (List.range n).filter (fun i => !(leaves.contains i))
+    let dup := (List.range n).filter (fun i => (leaves.filter (· == i)).length > 1)
+    (d, [s!"aggregate n={n} constructed={leaves.length} missing={missing} twice={dup}"])
   | "fwd-names" :: names =>
     (d, ["fwd " ++ (writeForwardDeclarations (sortedSet (names.flatMap (extractNames Generated.keywords)))).replace "\n" "|"])
   | "fwd-type" :: _ => (d, ["fwd-type needs the raw line"])
